@@ -16,6 +16,7 @@ import Paroxy.Proofs.FlatBackport
 import Paroxy.Proofs.FlatNeg
 import Paroxy.Proofs.FlatEscape
 import Paroxy.Proofs.FlatCtx
+import Paroxy.Proofs.FlatFuse
 namespace Paroxy.Props.C15
 open Paroxy.Flat
 
@@ -166,9 +167,11 @@ tweak, under *local* clauses (`wfKinds`, `wfAlias`, `wfPosonly`, `wfBackport`, `
 name / type / scalar line / node shape; Bool-valued). `C15_tweaks_full` composes the six: under
 `wfStages6` (each pass's clauses on the tree that pass receives; evaluated by the driver on every real
 tree) post-processing the dump is the dump of `stage6 t`, the six tree-level tweaks in pipeline order.
-What stays exercised only: that `stage6` equals the one-shot specification `tweak` (which renames
-constants after their *real* kind; `stage6` after the repr prefix like the code) — compared by the
-driver on every real tree (`c15.spec`: `stage6_eq_tweak`). -/
+`C15_stage6_eq_tweak`: under `wfTweak` (shape of `Constant` and `UnaryOp` nodes, agreement of the repr prefix
+with the real kind of a constant, field names without `/`; one Bool predicate, evaluated on every real
+tree) the six staged tweaks are the one-shot specification `tweak` — which renames constants after their
+*real* kind and keys `posonlyargs` on the name path. Hence `C15_tweaks_full` / `C15_flatten_tweaked` speak
+about `tweak`. -/
 
 /-- **C15 (tweak: unquote), partial.** On the dump of a tree satisfying the local clauses of
 `wfUnquote` (no `=` in names; types untouched by the pass; a `str` repr is delimited by quotes, no
@@ -258,7 +261,7 @@ theorem C15_tweak_neg_partial (t0 t : Val) (hwf : wfNeg [] t = true) :
 post-processing the dump of a tree is the dump of the tree after the six tree-level tweaks:
 `kind` fields dropped, alias positions dropped, `posonlyargs` lengths dropped, constants renamed by the
 text of their value, `-literal` folded, strings unquoted — and nothing else. -/
-theorem C15_tweaks_full (t0 : Val) (ty : Str) (e : Bool) (r : Str) (ln : Option Nat)
+theorem C15_tweaks_staged (t0 : Val) (ty : Str) (e : Bool) (r : Str) (ln : Option Nat)
     (fs : List (Str × Val)) (hwf : wfStages6 (.node ty e r ln fs) = true) :
     postProcess (dumpP (hashFn t0) [] [] (.node ty e r ln fs)) =
       dumpP (hashFn t0) [] [] (stage6 (.node ty e r ln fs)) := by
@@ -271,12 +274,34 @@ theorem C15_tweaks_full (t0 : Val) (ty : Str) (e : Bool) (r : Str) (ln : Option 
 /-- **C15 (the real pipeline).** What `flatten_ast` returns for a tree whose on-the-fly form is
 well-formed is the plain dump of the six tree-level tweaks of that form, hashes numbered by first
 occurrence in the untweaked tree. -/
-theorem C15_flatten_tweaked (cfg : Cfg) (s : HashState) (t : Val) (ty : Str) (e : Bool) (r : Str)
+theorem C15_flatten_staged (cfg : Cfg) (s : HashState) (t : Val) (ty : Str) (e : Bool) (r : Str)
     (ln : Option Nat) (fs : List (Str × Val)) (ht : prep cfg t = .node ty e r ln fs)
     (hwf : wfStages6 (prep cfg t) = true) :
     (flattenAst cfg s t).1 = dumpP (hashFn (prep cfg t)) [] [] (stage6 (prep cfg t)) := by
   rw [C15_flatten_eq, ht] at *
-  exact C15_tweaks_full _ ty e r ln fs hwf
+  exact C15_tweaks_staged _ ty e r ln fs hwf
+
+/-- **C15 (staged = one-shot).** Under `wfTweak` the six staged tree-level tweaks are the one-shot
+specification `tweak`. -/
+theorem C15_stage6_eq_tweak (t : Val) (h : wfTweak t = true) : stage6 t = tweak [] t := stage6_eq_tweak t h
+
+/-- **C15 (the documented tweaks only), on the specification.** Under `wfStages6` and `wfTweak`,
+post-processing the dump of a tree is the dump of `tweak [] t`: constants renamed by their real kind, a
+minus sign folded into a numeric literal, `kind` fields / `posonlyargs` lengths / alias positions dropped,
+strings unquoted — and nothing else. -/
+theorem C15_tweaks_full (t0 : Val) (ty : Str) (e : Bool) (r : Str) (ln : Option Nat)
+    (fs : List (Str × Val)) (hwf : wfStages6 (.node ty e r ln fs) = true)
+    (hwt : wfTweak (.node ty e r ln fs) = true) :
+    postProcess (dumpP (hashFn t0) [] [] (.node ty e r ln fs)) =
+      dumpP (hashFn t0) [] [] (tweak [] (.node ty e r ln fs)) := by
+  rw [C15_tweaks_staged t0 ty e r ln fs hwf, stage6_eq_tweak _ hwt]
+
+/-- **C15 (the real pipeline), on the specification.** -/
+theorem C15_flatten_tweaked (cfg : Cfg) (s : HashState) (t : Val) (ty : Str) (e : Bool) (r : Str)
+    (ln : Option Nat) (fs : List (Str × Val)) (ht : prep cfg t = .node ty e r ln fs)
+    (hwf : wfStages6 (prep cfg t) = true) (hwt : wfTweak (prep cfg t) = true) :
+    (flattenAst cfg s t).1 = dumpP (hashFn (prep cfg t)) [] [] (tweak [] (prep cfg t)) := by
+  rw [C15_flatten_staged cfg s t ty e r ln fs ht hwf, stage6_eq_tweak _ hwt]
 
 /-- Non-vacuity: `x = u'a'` (exported shape) satisfies the sets of clauses. -/
 def sampleConst : Val :=
@@ -287,7 +312,8 @@ def sampleConst : Val :=
           [(cs!"value", .scalar cs!"'a'" .str), (cs!"kind", .scalar cs!"'u'" .str)])]])]
 
 example : wfUnquote sampleConst = true ∧ wfKinds sampleConst = true ∧ wfPosonly [] sampleConst = true ∧
-    wfAlias [] sampleConst = true ∧ wfStages4 sampleConst = true ∧ wfStages6 sampleConst = true := by
+    wfAlias [] sampleConst = true ∧ wfStages4 sampleConst = true ∧ wfStages6 sampleConst = true ∧
+    wfTweak sampleConst = true := by
   decide
 
 example : dumpP id [] [] (stage4 sampleConst) =
@@ -310,7 +336,7 @@ def sampleNeg : Val :=
            (cs!"operand", .node cs!"Constant" true cs!"Constant(value=5)" (some 1)
              [(cs!"value", .scalar cs!"5" .num), (cs!"kind", .scalar cs!"None" .nameConst)])])]])]
 
-example : wfStages6 sampleNeg = true := by decide
+example : wfStages6 sampleNeg = true ∧ wfTweak sampleNeg = true := by decide
 example : dumpP id [] [] (stage6 sampleNeg) =
     [cs!"/_type=Module", cs!"/body/_length=1", cs!"/body/1/_type=Expr", cs!"/body/1/_pos=1:1-",
      cs!"/body/1/value/_type=Num", cs!"/body/1/value/_hash=UnaryOp(op=USub(), operand=Constant(value=5))",
